@@ -1,6 +1,7 @@
 import HdVerif.Proofs.Stack
 import HdVerif.Generated.TC11v
 import HdVerif.Generated.TC11a
+import Mathlib.Data.List.Dedup
 /-! Bridges between the hand-written slice-stack model (`Model/Stack.lean`) and the source.
 
 The arithmetic of `get_volume_positions` and the index choices of the two assembly routes are written by hand in the model.
@@ -69,7 +70,8 @@ def estimateSpacingSrc (dSorted : List Rat) : Except ErrKind (Option Rat) :=
 
 /-- `spacingMissing` with the source's expressions: estimate `estimateSpacingSrc` (zero test with `Gen.gapZeroAtol`, refinement
 loop with `Gen.gapRefineRatio`, `Gen.gapRefineGuard`, `Gen.gapRefined`), multiples `Gen.gapMultiple`,
-tolerances `Gen.gapRtol` / `Gen.gapAtol`. -/
+tolerances `Gen.gapRtol` / `Gen.gapAtol`, the distinct-index test `Gen.gapIndicesCollide` (`len(np.unique(indices)) < len(indices)`;
+`np.unique` of a one-dimensional integer array = `List.dedup` up to order, only its length is used). -/
 def spacingMissingSrc (d dSorted : List Rat) (hint : Option Rat) (rtol atol : Rat) :
     Except ErrKind (Option (Rat × Bool × List Int)) := do
   let sp ← (match hint with
@@ -81,9 +83,23 @@ def spacingMissingSrc (d dSorted : List Rat) (hint : Option Rat) (rtol atol : Ra
     let rounded := mult.map roundHalfEven
     let rt ← Gen.gapRtol
     let at' ← Gen.gapAtol rtol atol s
-    let reg := (mult.zip rounded).all fun mr => isClose mr.1 (mr.2 : Rat) rt at'
+    let collide ← Gen.gapIndicesCollide (rounded.dedup.length : Int) (rounded.length : Int)
+    let reg := ((mult.zip rounded).all fun mr => isClose mr.1 (mr.2 : Rat) rt at') && !collide
     pure (some (s, reg, rounded))
   | _, _ => pure none
+
+/-- `len(np.unique(x)) < len(x)` says that `x` has a repeated entry -/
+theorem dedup_length_lt_iff (l : List Int) : (decide ((l.dedup.length : Int) < (l.length : Int))) = !decide l.Nodup := by
+  by_cases h : l.Nodup
+  · have : l.dedup = l := List.dedup_eq_self.mpr h
+    simp [this, h]
+  · have hne : l.dedup ≠ l := fun e => h (List.dedup_eq_self.mp e)
+    have hlt : l.dedup.length < l.length := by
+      rcases Nat.lt_or_ge l.dedup.length l.length with hl | hl
+      · exact hl
+      · exact absurd ((List.dedup_sublist l).eq_of_length_le hl) hne
+    have : (l.dedup.length : Int) < (l.length : Int) := by exact_mod_cast hlt
+    simp [this, h]
 
 theorem gapZeroAtol_eq : Gen.gapZeroAtol = eqTol := by decide +kernel
 
@@ -123,8 +139,9 @@ theorem spacingMissing_uses_source (d ds : List Rat) (hint : Option Rat) (rtol a
     | some dmin =>
       have hmul : d.mapM (fun x => Gen.gapMultiple x dmin s) = .ok (d.map fun x => (x - dmin) / s) :=
         mapM_ok_of_forall _ _ d (fun a _ => rfl)
-      simp only [hmul, bind, Except.bind, Gen.gapRtol, Gen.gapAtol, rabs, pure, Except.pure]
-      congr 6
+      simp only [hmul, bind, Except.bind, Gen.gapRtol, Gen.gapAtol, Gen.gapIndicesCollide, dedup_length_lt_iff, Bool.not_not, rabs, pure,
+        Except.pure]
+      congr 7
       norm_num
 
 /-! ## what follows both routes: handedness refusal, returned spacing; the single-position case -/
